@@ -71,12 +71,12 @@ func TestVerifC08Hist(t *testing.T) {
 		"every transaction in the window (last two base transactions + all added ones), merges of tip pairs, and rejected writes (duplicate, " +
 		"second root, missing prev, wrong payload); states merged by (stored set by structural name, head); reference fold of App. B.2 on " +
 		"the live instance and on a reloaded copy in every state; a case is non-trivial when its last event is a valid addition")
-	r.Assume("bbolt's atomic commit is trusted; clocks above 2049 and more than 6 additions per history are not explored")
+	r.Assume("bbolt's atomic commit is trusted; clocks above 2051 and more than 7 additions per history are not explored")
 
 	type baseSpec struct{ n, depth int }
 	specs := []baseSpec{{0, 5}, {1, 4}, {2, 4}, {3, 4}, {510, 3}, {511, 3}, {1022, 3}, {1023, 3}, {2046, 2}, {2047, 2}}
 	if r.Thorough() {
-		specs = []baseSpec{{0, 6}, {1, 6}, {2, 5}, {3, 5}, {510, 4}, {511, 4}, {1022, 4}, {1023, 4}, {2046, 3}, {2047, 3}}
+		specs = []baseSpec{{0, 7}, {1, 6}, {2, 6}, {3, 6}, {510, 5}, {511, 5}, {1022, 5}, {1023, 5}, {2046, 4}, {2047, 4}}
 	}
 	var rc c08Case
 	replay := r.ReplayCase(&rc)
@@ -763,10 +763,10 @@ func TestVerifC08Repair(t *testing.T) {
 	for _, base := range bases {
 		pages := (base-1)/int(PageSize) + 1
 		for page := 0; page < pages; page++ {
-			for _, corruption := range []string{"phantom", "missing", "zeroed"} {
-				for _, place := range []string{"mem+disk", "mem", "disk"} {
+			for ci, corruption := range []string{"phantom", "missing", "zeroed"} {
+				for pi, place := range []string{"mem+disk", "mem", "disk"} {
 					idx++
-					if !r.Mine(idx) || r.Expired() {
+					if !r.Mine(page+ci+pi+base) || r.Expired() { // the expensive place (mem+disk, with fault enumeration) is spread over the workers
 						continue
 					}
 					c := c08Case{Part: "repair", Base: base, Page: page, Variant: corruption + "/" + place}
